@@ -1,10 +1,12 @@
 -- Root of the `Walrus` library: every model, proof and property module.
 import Walrus.Props.C03
+import Walrus.Props.C04
 import Walrus.Props.C08
 import Walrus.Props.C09
 import Walrus.Props.C10
 import Walrus.Props.C11
 import Walrus.Props.C12
+import Walrus.Props.C13
 import Walrus.Props.C14
 import Walrus.Props.C15
 import Walrus.Props.C16
